@@ -44,10 +44,13 @@ def _expr_design(job):
     return _mk(m, ins, outs, events, {"source": "expr", "programs": used[:40]})
 
 
+WANT_WF = False      # set by C07, which judges the same documents structurally (RtlilWF)
+
+
 def _mk(design, ins, outs, events, meta):
     from .. import rtlil_eq, rtlil_flatten, rtlil_parse
     try:
-        return ("ok", rtlil_eq.make_trace(design, ins, outs, events, meta))
+        return ("ok", rtlil_eq.make_trace(design, ins, outs, events, meta, want_wf=WANT_WF))
     except rtlil_flatten.Unsupported as e:
         return ("unsupported", str(e), meta)
     except rtlil_parse.RtlilSyntaxError as e:
@@ -251,25 +254,34 @@ def _stmt_progs(files):
 
 def run(ctx):
     th = ctx.thorough
+    jobs = design_jobs(ctx, th)
+    _run_rest(ctx, jobs)
+
+
+def design_jobs(ctx, th, scale=1.0):
     rng = ctx.rng
     jobs = []
     single, tern, comp = c01.instances(th)
-    files = _sim_files(ctx, "MC_AmExpr", c01.CFG.format(**comp), 6000 if th else 800, comp["maxlen"] + 1, "expr")
+    files = _sim_files(ctx, "MC_AmExpr", c01.CFG.format(**comp), int((6000 if th else 800) * scale), comp["maxlen"] + 1, "expr")
     progs = [p for chunk in pmap(_expr_progs, [files[i::16] for i in range(16) if files[i::16]]) for p in chunk]
     rng.shuffle(progs)
     for i in range(0, len(progs), 20):
         jobs.append((_expr_design, (progs[i:i + 20], rng.getrandbits(32))))
     ctrl, lhs, fsm, mixed, fsm2 = c02.instances(th)
-    files = _sim_files(ctx, "MC_AmStmt", c02.CFG.format(**mixed), 4000 if th else 600, mixed["maxlen"] + 1, "stmt")
+    files = _sim_files(ctx, "MC_AmStmt", c02.CFG.format(**mixed), int((4000 if th else 600) * scale), mixed["maxlen"] + 1, "stmt")
     sprogs = [p for chunk in pmap(_stmt_progs, [files[i::16] for i in range(16) if files[i::16]]) for p in chunk]
     for i in range(0, len(sprogs), 6):
         jobs.append((_stmt_design, (sprogs[i:i + 6], rng.getrandbits(32))))
     files = _sim_files(ctx, "MC_AmDesign", c03.CFG.format(domcfgs="AllDomCfgs", stacks="Stacks3", regdoms="AllRegDoms", maxev=20),
-                       3000 if th else 300, 21, "dom")
+                       int((3000 if th else 300) * scale), 21, "dom")
     for cfg, events, expected in c03._parse(files):
         jobs.append((_dom_design, (cfg, events)))
-    for k in range(3000 if th else 250):
+    for k in range(int((3000 if th else 250) * scale)):
         jobs.append((_hier_design, rng.getrandbits(40)))
+    return jobs
+
+
+def _run_rest(ctx, jobs):
     res = pmap(_run_job, jobs, chunksize=4)
     traces, metas = [], []
     stats = {}
@@ -278,7 +290,7 @@ def run(ctx):
         st = stats.setdefault(src, {"ok": 0, "unsupported": 0, "violation": 0})
         st[r[0]] += 1
         if r[0] == "ok":
-            traces.append({k: v for k, v in r[1].items() if k != "meta"})
+            traces.append({k: v for k, v in r[1].items() if k not in ("meta", "wf")})
             metas.append(r[1]["meta"])
         elif r[0] == "violation":
             ctx.violation({"source": src, "what": r[1].split(":")[0]}, "design from source %s: %s (%s)" % (src, r[1], r[2]), replay=r[2])
